@@ -166,6 +166,8 @@ class Gen:
             if self.faults and r.random() < 0.2:
                 f = r.choice([{"fstore": r.choice([0, 1])}, {"fcloud": 0}])
             return dict({"op": k, "n": r.choice([0, 0, 0, 1, 2])}, **f)
+        if k == "resync" and r.random() < 0.35:
+            return {"op": r.choice(["resync_fetch", "resync_item", "resync_item"]), "ip": "@a%d" % r.randrange(6)}
         if k == "resync":
             return dict({"op": k, "ip": "@a%d" % r.randrange(6)}, **({"fcloud": 0} if self.faults and r.random() < 0.1 else {}))
         if k == "api_release":
@@ -373,7 +375,14 @@ def translate(hist, obs, ext=False):
                         fstore = gi
             t = "(PEvent %s %s %s %s)" % (cnat(op["n"]), coracle(order=order), clist(cN(x) for x in ounassign),
                                          cfaults(store=fstore, cloud=fcloud))
-        elif k in ("resync", "api_release"):
+        elif k == "resync_fetch":
+            prev = d
+            continue                  # taking the snapshot changes nothing; the items are the model's steps
+        elif k == "resync_item" and (res == "skipped" or not o.get("in_snapshot") or
+                                     not any(e[0] == s2ip(o["ip"]) and e[1] == o.get("snapshot_key") for e in (prev or {"alloc": []})["alloc"])):
+            prev = d
+            continue                  # not in the snapshot, or the key changed since: the item aborts (the next dump comparison shows it)
+        elif k in ("resync", "api_release", "resync_item"):
             ip = s2ip(o["ip"])
             ent = [e for e in (prev or {"alloc": []})["alloc"] if e[0] == ip]
             fcloud = None
@@ -390,7 +399,7 @@ def translate(hist, obs, ext=False):
                 nclear = len([e for e in prev["alloc"] if e[1] == key and (e[3] != "" or e[4] != "")])
             oclear, rest = gets[:nclear], gets[nclear:]
             order = dels or rest
-            if k == "resync":
+            if k in ("resync", "resync_item"):
                 t = "(PResync %s %s %s %s)" % (cN(ip), coracle(order=order), clist(cN(x) for x in oclear), cfaults(cloud=fcloud))
                 out = "ROk"
             else:
